@@ -1737,6 +1737,19 @@ def _extract_all(repo, fam):
             return [v.coeff(nm) for nm in names]
         D["bs"]["extrapolate"].append({"k": k, "y1": row(it.mem["ode.y1[0]"]), "C": row(it.mem["ode.C[0]"]),
                                        "D": [row(it.mem["ode.D[%d][0]" % j]) for j in range(k + 1)]})
+    # ---- MERCURIUS changeover functions (polynomial ones): executed at exact rational sample points
+    fam[0] = "changeover"
+    D["changeover"] = []
+    pts = [(Fraction(k, 40) * dc, dc) for dc in (Fraction(1), Fraction(7, 3), Fraction(1, 50)) for k in range(-4, 53, 3)] + \
+          [(Fraction(1, 10) * dc, dc) for dc in (Fraction(1), Fraction(7, 3))] + [(dc, dc) for dc in (Fraction(1), Fraction(7, 3))]
+    for fn in ("reb_integrator_mercurius_L_mercury", "reb_integrator_mercurius_L_C4", "reb_integrator_mercurius_L_C5"):
+        rows = []
+        for d_, dc in pts:
+            v = call_function([merc], enums, fn, [Path("r"), d_, dc])
+            if not isnum(v):
+                raise ExtractError("%s(%s, %s) is not a tracked number: %r" % (fn, d_, dc, v))
+            rows.append((d_, dc, Fraction(v)))
+        D["changeover"].append({"name": fn, "samples": rows})
     # ---- LEAPFROG
     fam[0] = "leapfrog"
     lbase = {"r.N": 1, "r.t": Fraction(0), "r.particles": Path("r.particles")}
@@ -1942,6 +1955,10 @@ def emit_lean(D):
            "safe_from_unsync": "safe_mode = 1 entered in an unsynchronized state: part1 synchronizes first"}
     for k in ("safe", "unsafe_first", "unsafe_next", "two_unsync", "three_unsync_resync", "sync_only", "safe_from_unsync"):
         s += "/-- %s -/\ndef merc_%s : List Op :=\n  %s\n" % (doc[k], k, lops(D["mercurius"][k]))
+    for e in D["changeover"]:
+        s += "/-- %s executed from the source text at exact rational (d, dcrit): ((d, dcrit), value) -/\n" % e["name"]
+        s += "def changeover_%s : List ((Rat × Rat) × Rat) := [\n  %s]\n" % (e["name"].rsplit("_", 1)[1], ",\n  ".join(
+            "((%s, %s), %s)" % (lq(a), lq(b), lq(c_)) for a, b, c_ in e["samples"]))
     s += "def mercCounts : List (String × Nat) := [(\"schedules\", %d)]\n" % len(D["mercurius"])
     s += "end RV.C01.Gen\n"
     out["C01Mercurius.lean"] = s
